@@ -179,6 +179,15 @@ def into_any(ex, st, info, args):
         return int_cast(v, tgt.strip())
     if tgt and tgt.strip() == type_key(info['selfty']):
         return v
+    if tgt and type_key(tgt) == 'Cow':
+        return Opaque('string', 'cow')
+    if tgt and type_key(tgt) == 'String':
+        return string_from(ex, st, info, args)
+    if tgt and tgt.strip() in FLOAT_TYPES and isinstance(v, (Int, Flt)):
+        from .execu import Executor as _E      # int -> float conversions are exact for the lossless `Into` impls
+        return ex.cast(st, v, tgt.strip(), 'IntToFloat' if isinstance(v, Int) else 'FloatToFloat')
+    if tgt and type_key(tgt) == 'Option':
+        return mk_some(v)
     raise ExecError('Into::into %s' % info['raw'])
 
 
@@ -379,6 +388,10 @@ def eq_values(ex, st, a, b, k):
         return eq_seq(ex, st, a.e, b.e, k)
     if isinstance(a, RString) and isinstance(b, RString):
         return k(st, string_eq(a, b))
+    if isinstance(a, (RString, StrLit)) and isinstance(b, (RString, StrLit)):
+        a2 = a if isinstance(a, RString) else RString((a.s,) if a.s else ())
+        b2 = b if isinstance(b, RString) else RString((b.s,) if b.s else ())
+        return k(st, string_eq(a2, b2))
     raise ExecError('eq_values on %r / %r' % (a, b))
 
 
@@ -405,6 +418,29 @@ def string_eq(a, b):
     return acc
 
 
+def _fixed_hex(spec, v):
+    """characters of a symbolic integer printed as zero-padded hex of exactly its full width ({:08x} of a u32)"""
+    parts = spec.split(':')
+    if parts[0] not in ('lower_hex', 'upper_hex'):
+        return None
+    flags, width = 0, None
+    for p in parts[1:]:
+        if p.startswith('f'):
+            flags = int(p[1:], 16)
+        elif p.startswith('w'):
+            width = int(p[1:])
+    w, _ = INT_TYPES[v.ty]
+    if width is None or not (flags & (1 << 24)) or flags & ~((1 << 24) | (0x7f << 25) | 0x1fffff) or width * 4 != w:
+        return None
+    x = to_bv(v)
+    base = ord('a') if parts[0] == 'lower_hex' else ord('A')
+    out = []
+    for i in reversed(range(width)):
+        nib = z3.ZeroExt(28, z3.Extract(4 * i + 3, 4 * i, x))
+        out.append(mk_int('char', z3.If(z3.ULT(nib, 10), nib + 48, nib + (base - 10))))
+    return out
+
+
 def string_chars(s):
     out = []
     for seg in s.segs:
@@ -412,6 +448,20 @@ def string_chars(s):
             out.extend(Int('char', ord(c)) for c in seg)
         elif seg[0] == 'chars':
             out.extend(seg[1])
+        elif seg[0] == 'val' and isinstance(seg[2], Int) and seg[2].concrete:
+            # a concrete integer rendered by core::fmt (decimal / lower hex, width, zero padding)
+            from .validate import render_val
+            txt = render_val(seg[1], seg[2], None)
+            if txt.startswith('<'):
+                return None
+            out.extend(Int('char', ord(c)) for c in txt)
+        elif seg[0] == 'val' and isinstance(seg[2], Int) and _fixed_hex(seg[1], seg[2]) is not None:
+            out.extend(_fixed_hex(seg[1], seg[2]))
+        elif seg[0] == 'val' and isinstance(seg[2], (RString, StrLit)) and seg[1].split(':')[0] == 'display' and ':w' not in seg[1]:
+            inner = string_chars(seg[2]) if isinstance(seg[2], RString) else [Int('char', ord(c)) for c in seg[2].s]
+            if inner is None:
+                return None
+            out.extend(inner)
         else:
             return None
     return out
@@ -683,8 +733,8 @@ def slice_copy_from_slice(ex, st, info, args):
 @B.trait('IntoIterator', 'into_iter')
 def into_iter(ex, st, info, args):
     v = args[0]
-    if isinstance(v, Struct) and v.ty in ('Range', 'RangeInclusive', 'SliceIter', 'VecIntoIter', 'MapIter',
-                                          'MapKeys', 'MapIterAdapter'):
+    if isinstance(v, Struct) and (v.ty in ('Range', 'RangeInclusive', 'SliceIter', 'VecIntoIter', 'MapIter',
+                                           'MapKeys', 'MapIterAdapter', 'MapAdapter', 'Enumerate') or v.ty in ITER_EXT):
         if v.ty == 'RangeInclusive' and len(v.f) == 2:
             return Struct('RangeInclusive', (v.f[0], v.f[1], False))
         return v
@@ -704,6 +754,9 @@ def into_iter(ex, st, info, args):
 @B.path('RangeInclusive::new')
 def range_incl_new(ex, st, info, args):
     return Struct('RangeInclusive', (args[0], args[1], False))
+
+
+ITER_EXT = {}      # struct name -> next handler (mirsym/iter_bi.py)
 
 
 def iter_next(ex, st, itref, k):
@@ -778,6 +831,9 @@ def iter_next(ex, st, itref, k):
             return k(st, mk_some(kref))
         vref = Ref(r.base, r.projs + (('mapval', i.v),), r.mut)
         return k(st, mk_some(Tup((kref, vref))))
+    h = ITER_EXT.get(it.ty)
+    if h is not None:
+        return h(ex, st, itref, it, k)
     raise ExecError('Iterator::next on ' + it.ty)
 
 
